@@ -22,6 +22,10 @@ claims = {
          "http client = harness transport; JSON = abstract codec; engine's model of channels/WaitGroup/select"),
  "C12": ("DESIGN.md §4 C12", "executeRequests/setIMap/indexMap with <= 3..4 requests whose entity ids are symbolic string atoms (the solver case-splits every equality pattern), two sub-queries, with/without a forwarded client variable and the id-to-type hint: one call per service and level, exactly the distinct (id, sub-query) lookups are sent, every request receives the answer computed for its own entity and step, answers are deep copies; plus the pipeline kernel counting batched calls per service against plan levels for lists up to k.",
          "ids are atoms without '#'/':'; gqlparser native; canonical schedule"),
+ "C13": ("DESIGN.md §4 C13", "Self-composition on the interpreted request path: every scenario operation is sent twice to one gateway; data, the set of errors and the multiset of sub-requests per service must coincide while the engine makes the iteration order of up to `maporder` (1 quick / 2 thorough) map range loops of the code under test symbolic (insertion order, reversed, rotated), including those of merger, planner, formatter, executor and scrubber.",
+         "three alternative orders per diverging range loop, not all permutations; canonical goroutine schedule; gqlparser native"),
+ "C14": ("DESIGN.md §4 C14", "CachedPlanner.Plan/hash/clean with the real SequentialPlanner inside vs. the plain planner on the same context, for every history of <= 2 (quick) / 3 (thorough) requests over an 11-operation pool (same selection with different operation type / name / variable values / aliases / fragment bodies), TTL in {0,1,10} and a symbolic monotone clock (expiry between requests is decided by the solver); plus two concurrent Plan calls under every interleaving with the happens-before race detector on the two cache maps.",
+         "time.Now = symbolic clock; gqlparser and sha1 native on concrete input; engine's RWMutex model"),
  "C20": ("DESIGN.md §4 C20", "AsyncMapReduce[int,int,[]int] under every interleaving (stateful search, no pre-emption bound) for n<=3 (quick) / 4 (thorough), failure bit per item symbolic, with a happens-before race detector, deadlock and goroutine-leak detection.",
          "engine's model of channels, select, WaitGroup, defer; map/reduce functions neither panic nor block"),
 }
